@@ -438,6 +438,37 @@ class SRun:
             v2 = vv_of(ep["a"]) if r1 is not None and r1.typ == "OK" and r2 is not None and r2.typ == "OK" else None
             if v1 is not None and v2 is not None and v1 == v2:
                 self.fail("C02.uidvalidity-names-two-incarnations", {"how": "concurrent-create;delete;rename"}, f"a UIDVALIDITY other than {v1}", v2)
+        # epilogue: mailboxes created by the concurrent commands; the process dies (kill) or is shut down in an orderly way and is
+        # started again on the same directory; each name is deleted and created again: its new UIDVALIDITY must be larger than
+        # the one it had (which a client has seen: EXAMINE before the restart)
+        ep = self.scn.get("epilogue_recreate")
+        if ep:
+            def vv_of2(o, name):
+                r, resps = o.do(f'EXAMINE "{name}"')
+                if r is None or r.typ != "OK":
+                    return None
+                for x in resps:
+                    if x.kind == "untagged" and x.typ == "OK" and x.code and str(x.code[0]).upper() == "UIDVALIDITY":
+                        return int(x.code[1])
+                return None
+
+            o = h.sess("O")
+            o.on_resp = None
+            before = {n: vv_of2(o, n) for n in ep["names"]}
+            if ep.get("how") == "kill":
+                w.kill()
+                w.start()
+            else:
+                w.restart()
+            o = w.connect("O2")
+            for n in ep["names"]:
+                if before[n] is None:
+                    continue
+                r1, _ = o.do(f'DELETE "{n}"')
+                r2, _ = o.do(f'CREATE "{n}"')
+                after = vv_of2(o, n) if r1 is not None and r1.typ == "OK" and r2 is not None and r2.typ == "OK" else None
+                if after is not None and after <= before[n]:
+                    self.fail("C02.uidvalidity-not-larger-after-recreate", {"how": ep.get("how", "restart")}, f"> {before[n]}", after)
         sig_obs = (results, final_lists)
         self.env_fired = [e for e, f in zip(env_events, env_fired) if f]
         return npoints, sig_obs, model0
